@@ -30,6 +30,8 @@ def main(argv=None):
         with open(args.replay) as f:
             rec = json.load(f)
         ctx = core.Ctx(mod.PROPERTY, args.tier, seed, known=[])
+        from . import shapes as _shapes
+        _shapes.CURRENT_VIA = rec['case'].get('via') if isinstance(rec['case'], dict) else None
         with core.quiet():
             mod.run_case(rec['case'], ctx)
         obl = rec['obligation']
